@@ -59,7 +59,10 @@ func ReexecWithEngineEnv(streams bool) {
 	set("LUNAR_FLOWS_PATH_PARAM_CONFIG", filepath.Join(root, "policies-from-path-params.yaml"))
 	set("LUNAR_PROXY_CONFIG", filepath.Join(root, "conf", "gateway_config.yaml"))
 	set("LUNAR_PROXY_METRICS_CONFIG", filepath.Join(root, "conf", "metrics.yaml"))
-	set("LUNAR_PROXY_METRICS_CONFIG_DEFAULT", filepath.Join(RepoRoot(), "proxy", "metrics.yaml"))
+	// a private copy of the shipped default metrics file, inside the configuration root: the engine may write
+	// to this path (it did: an update's metrics went to the default file when no user file existed, which
+	// overwrote /repo/proxy/metrics.yaml), and the tree digest of C08 then sees it
+	set("LUNAR_PROXY_METRICS_CONFIG_DEFAULT", filepath.Join(root, "conf", "default_metrics.yaml"))
 	set("LUNAR_PROXY_POLICIES_CONFIG", filepath.Join(root, "policies.yaml"))
 	// the engine persists loaded-policies*.yaml here; without it the files land in the working directory,
 	// shared by every concurrently running batch process (a reader then sees a half-written file)
@@ -176,6 +179,9 @@ func WriteConfDir(cfg Config) {
 	}
 	_ = os.Remove(filepath.Join(conf, "gateway_config.yaml"))
 	_ = os.Remove(filepath.Join(conf, "metrics.yaml"))
+	if data, err := os.ReadFile(filepath.Join(RepoRoot(), "proxy", "metrics.yaml")); err == nil {
+		must(os.WriteFile(filepath.Join(conf, "default_metrics.yaml"), data, 0o644))
+	}
 	for n, c := range cfg.Flows {
 		must(os.WriteFile(filepath.Join(conf, "flows", n), []byte(c), 0o644))
 	}
